@@ -202,6 +202,17 @@ def plan_c17(seed: int, *, faults=True) -> dict:
                     s2["fault_frac"] = rng.random()
                 sessions.append(s2)
         phases.append({"sessions": sessions})
+    if not sibling and rng.random() < 0.15:
+        # two unrelated scripts in two directories, each with its own working directory, writing a
+        # file of the same (relative) name: separate operating-system processes
+        files = {"job_a/" + MAIN: dict(files[MAIN]), "job_b/" + MAIN: {"initial": "absent", "log_times": files[MAIN]["log_times"]}}
+        for ph in phases:
+            sa = ph["sessions"][0]
+            sa["aggs"] = ["job_a/" + MAIN]
+            sa["isolated"] = {"cwd": "job_a"}
+            sa.pop("recreate", None)
+            sb = {"group": "B" + sa["group"][1:], "aggs": ["job_b/" + MAIN], "tasks": mk_tasks(0, names, rng.randint(1, 2)), "end": "graceful", "isolated": {"cwd": "job_b"}}
+            ph["sessions"] = [sa, sb]
     plan = {
         "engine": "aggsim", "property": "C17", "seed": seed, "knobs": _knobs(rng),
         "spec": spec, "inputs": inputs, "files": files, "phases": phases, "schedule": None,
@@ -210,7 +221,7 @@ def plan_c17(seed: int, *, faults=True) -> dict:
     _add_poison(plan, rng)
     # the output name may be given without its extension (documented: ".tsv" is appended)
     for fname in list(files):
-        if fname.endswith(".tsv") and "." not in fname[:-4] and rng.random() < 0.15:
+        if fname.endswith(".tsv") and "." not in fname[:-4] and "/" not in fname and rng.random() < 0.15:
             files[fname]["given"] = fname[:-4]
     return plan
 
